@@ -226,6 +226,10 @@ def check_project(proj: Dict[str, Any], order_pick: Optional[int] = None) -> Tup
                 seen.add(sig)
                 out.append((sig, msg))
     out = [(sig, '%s\n%s\n(%d of %d orders fail this way)' % (desc_files, msg, failing_orders.get(sig, 1), len(orders))) for sig, msg in out]
+    fbs = rexproj.fallback_after_star(proj)
+    if fbs:
+        # (finding F68: the project contains the shape; its discrepancies are those of that shape or follow from it)
+        out = [(rexproj.FALLBACK_AFTER_STAR if sig != 'analysis-raises' else sig, msg) for sig, msg in out][:1]
     info['reexports'] = len(proj['exports'])
     info['outdated_consumers'] = sum(1 for c in meta['checks'] if rexproj.exporter_of(proj, c['obj']) and c['how'] in ('from-impl', 'both', 'modalias', 'pkgalias', 'dotted', 'xref-old'))
     return out, info
